@@ -155,9 +155,9 @@ def stepExp (s : ESpace) (nd : Nat) (ws : List String) : ESpace × String :=
     match a.toNat?, ints xs with
     | some a, some p =>
       if badLen nd p then bad else
-      match agentSetV s a p with
-      | .ok s' => (s', "ok")
-      | .error e => (s, fmtErr e)
+      match agentSetVW false s a p with
+      | (s', .ok _) => (s', "ok")
+      | (s', .error e) => (s', fmtErr e)
     | _, _ => bad
   | "iadd" :: a :: xs =>
     match a.toNat?, ints xs with
